@@ -7,7 +7,7 @@
 use std::sync::Arc;
 
 use cfdp_core::daemon::Indication;
-use cfdp_core::pdu::{Condition, Operations};
+use cfdp_core::pdu::{Condition, DeliveryCode, Operations};
 use cfdp_core::transaction::TransactionState;
 
 use crate::{
@@ -229,11 +229,24 @@ fn handler_check(a: &Analysis, t: &Txn, side: &Side, ent: usize, sender: bool, c
                     }
             });
             let limit_cond = !peer_cancelled && matches!(c, Condition::PositiveLimitReached | Condition::NakLimitReached | Condition::InactivityDetected);
+            // an ignored fault leaves its code in the transaction's condition field, and every later
+            // Finished carries it (also minutes later: not an effect of the handler). When the PDU
+            // that completes the file is delivered at the very instant the fault is declared, the
+            // ordinary completion (delivery code Complete, file delivered) happens at t_f and its
+            // Finished is not a cancel either.
+            let completing_pdu_now = side.recvd.iter().any(|r| {
+                r.vt == tf
+                    && r.pdu.as_ref().map_or(false, |p| match op_of(p) {
+                        None => true, // file data
+                        Some(Operations::EoF(_)) | Some(Operations::Metadata(_)) => true,
+                        _ => false,
+                    })
+            });
             let cancel_pdu = limit_cond && side.sent.iter().any(|s| {
                 s.vt == tf
                     && match s.pdu.as_ref().and_then(|p| op_of(p)) {
                         Some(Operations::EoF(e)) => e.condition == c,
-                        Some(Operations::Finished(f)) => f.condition == c,
+                        Some(Operations::Finished(f)) => f.condition == c && !(completing_pdu_now && f.delivery_code == DeliveryCode::Complete),
                         _ => false,
                     }
             });
